@@ -121,6 +121,10 @@ def run_contract(c, values, info):
         exc = exc_name(e)
         detail["traceback"] = traceback.format_exc()[-1500:]
     detail["body_outcome"] = "ret" if exc is None else "raise " + exc
+    if exc == "TurnsExceeded":
+        # the replayed obligation is a termination measure (<loop>.bounded_turns): the REAL call, started in the
+        # counter-model's state with the model's oracle answers, was still polling after WATCHDOG_FRAMES SPI frames
+        return {"reproduced": True, "failed": [WATCHDOG_CLAUSE], "detail": {"body_outcome": "did not return within %d SPI frames" % WATCHDOG_FRAMES}}
     refs = c.refines if isinstance(c.refines, (list, tuple)) else ([c.refines] if c.refines else [])
     if refs:
         any_ok = False
@@ -171,6 +175,31 @@ def run_contract(c, values, info):
     return {"reproduced": bool(failed), "failed": failed, "detail": detail}
 
 
+WATCHDOG_FRAMES = 20000
+WATCHDOG_CLAUSE = ""
+
+
+class TurnsExceeded(Exception):
+    pass
+
+
+def install_watchdog(clause):
+    """count the SPI frames of the executable radio contract; a call that is still going after WATCHDOG_FRAMES is
+    reported as not returning (used only when replaying a `bounded_turns` obligation)"""
+    global WATCHDOG_CLAUSE
+    WATCHDOG_CLAUSE = clause
+    from spec import hw as _hw
+    real = _hw.Radio.xfer
+    count = [0]
+
+    def xfer(self, mosi):
+        count[0] += 1
+        if count[0] > WATCHDOG_FRAMES:
+            raise TurnsExceeded()
+        return real(self, mosi)
+    _hw.Radio.xfer = xfer
+
+
 def run_lemma(lm, values):
     from pyvc import schema as S
     shared = {}
@@ -203,6 +232,9 @@ def main():
         import circuitpython_nrf24l01
         where = circuitpython_nrf24l01.__file__
         from pyvc.cdef import Lemma
+        want0 = payload["obligation"][len(payload["item"]) + 1:] if payload["obligation"].startswith(payload["item"] + ".") else ""
+        if want0.endswith(".bounded_turns"):
+            install_watchdog(want0)
         if isinstance(item, Lemma):
             out = run_lemma(item, payload.get("values") or {})
         else:
